@@ -129,6 +129,22 @@ func checkC01(r *Run) {
 		}
 	}
 	runPacks(r, cases, 1200, variants, "print", strictRef, &st)
+	// the construct table of C05 (optional chains incl. literal bases, class members, destructuring, async, …) must also
+	// survive plain printing: esbuild rewrites some of these forms even without minification or lowering
+	{
+		feat := featgenCases()
+		for i := range feat {
+			feat[i].Sig = "feat:" + feat[i].Sig
+			r.Nontrivial(feat[i].Body)
+		}
+		r.Eval(len(feat))
+		fv := variants
+		if len(fv) > 6 {
+			fv = fv[:6]
+		}
+		runPacksWith(r, feat, 60, fv, "print", strictRef, &st, featSource)
+		r.Count("featgen_cases", len(feat))
+	}
 	// sloppy-mode semantics with the format left alone
 	{
 		var sv []packVariant
